@@ -17,7 +17,7 @@ from .values import (V, VBool, VBound, VClosure, VInt, VMatch, VNone, VObj, VOpa
 BUILTIN_NAMES = {
     "len", "isinstance", "cast", "str", "int", "bool", "list", "tuple", "next", "any", "all",
     "enumerate", "reversed", "range", "print", "getattr", "hasattr", "id", "min", "max", "zip", "set",
-    "implies", "old", "iff", "repr", "heap_unchanged", "alloc_at_entry", "type", "sorted", "dict", "bytes", "float", "object",
+    "implies", "old", "iff", "repr", "heap_unchanged", "alloc_at_entry", "ctx_value", "type", "sorted", "dict", "bytes", "float", "object",
 }
 EXC_NAMES = {
     "ValueError", "KeyError", "TypeError", "IndexError", "AttributeError", "AssertionError",
@@ -25,7 +25,7 @@ EXC_NAMES = {
     "FileNotFoundError", "RuntimeError", "LookupError", "SyntaxError", "ImportError",
 }
 
-TAGS = {"opaqueset", "generator", "builtin", "exc", "excinst", "func", "class", "extmod", "extattr", "ext", "repomod", "classattr",
+TAGS = {"ctxvar", "token", "opaqueset", "generator", "builtin", "exc", "excinst", "func", "class", "extmod", "extattr", "ext", "repomod", "classattr",
         "args", "emptylist", "enumerate", "reversed", "range", "rsplit1", "idset", "modconst", "typeof",
         "ctxmgr", "dictobj", "method"}
 SENTINELS = {"linebreak": 1, "empty_line": 2, "comma": 3}
@@ -1110,6 +1110,9 @@ class Evaluator:
                 return VPy(self.E.RegexSpec(pat.t.as_string()), "regex")
         if mod == "typing" and name == "cast":
             return args[1]
+        if name == "ContextVar":
+            nm = self.lift(args[0])
+            return VPy(("ctxvar", nm.t.as_string() if isinstance(nm, VStr) and z3.is_string_value(nm.t) else "ctx"))
         if mod == "math" and name == "isfinite":
             return VBool(self.path.fresh("isfinite", z3.BoolSort()))
         self.oos(node, f"external {mod}.{name}")
@@ -1130,6 +1133,9 @@ class Evaluator:
                 return VInt(I(0))
         if name == "iff":
             return VBool(self.truth(args[0]) == self.truth(args[1]))
+        if name == "ctx_value":
+            key = self.lift(args[0]).t.as_string()
+            return self.path.__dict__.setdefault("globals", {}).get(key, VNone())
         if name == "alloc_at_entry":
             return VInt(self.path.alloc0)
         if name == "heap_unchanged":
@@ -1240,6 +1246,21 @@ class Evaluator:
                 return recv
         if isinstance(recv, (VSeq, VStrJoin)):
             return self.list_method(recv, name, args, node)
+        if isinstance(recv, VPy) and isinstance(recv.obj, tuple) and recv.obj and recv.obj[0] == "ctxvar":
+            g = self.path.__dict__.setdefault("globals", {})
+            key = recv.obj[1]
+            if name == "get":
+                return g.get(key, VNone())
+            if name == "set":
+                tok = VPy(("token", key, g.get(key, VNone())))
+                g[key] = args[0]
+                return tok
+            if name == "reset":
+                tok = args[0]
+                if isinstance(tok, VPy) and isinstance(tok.obj, tuple) and tok.obj[0] == "token" and tok.obj[1] == key:
+                    g[key] = tok.obj[2]
+                    return VNone()
+            self.oos(node, f"ContextVar.{name}")
         if isinstance(recv, VOpaque) and name in self.ctx.contract.opaque_methods:
             rt = self.ctx.contract.opaque_methods[name]
             sorts = {"Bool": z3.BoolSort(), "Str": z3.StringSort(), "Int": z3.IntSort(), "Opaque": z3.IntSort()}
